@@ -4,7 +4,8 @@ Static clauses:
   F-COORD    every construction of parsing::Error pairs a source text with a span in the same coordinate system:
              (whole input, absolute offsets) or (one line, line-relative); never (one line, absolute)
   F-SPANCTOR Span::new is called only by the two conversions from pest (From<pest::Span>, From<InputLocation>) and its
-             arguments are the pest offsets themselves (no arithmetic on the way): start <= end and char boundaries are pest's
+             arguments are the pest offsets themselves (no arithmetic on the way): start <= end and char boundaries are pest's;
+             no Span struct literal elsewhere and no assignment to Span.start / Span.end anywhere (spans are immutable once made)
   F-SAMEID   at every Error::not_in_scope(name, node) call, `name` is the `.value` of the node passed as location
   F-COPYSPAN every analysis diagnostic copies the span of the node it concerns (`ast.span().clone()` / `.span.clone()`)
 Not decided: character-boundary alignment (pest's guarantee), rendering.
@@ -191,6 +192,21 @@ def f_spanctor(F, res):
                 res.add([finding("F-SPANCTOR", "%s|Span literal" % f["path"], where(f, s["line"]), "Span built by a struct literal outside Span::new")])
     res.count("Span::new call sites", n)
     res.floor("Span::new call sites", n, 3)
+    # spans are never edited after the conversion from pest: no assignment to Span.start / Span.end anywhere (byte offsets
+    # shifted by arithmetic need not fall on a character boundary of the text they index)
+    edits = 0
+    for f in list(F.fns.values()) + list(F.built.values()):
+        if f["crate"] not in ("tx3_lang", "tx3c") or is_derive(f):
+            continue
+        for bi, si, s in mir.stmts(f):
+            if f["blocks"][bi]["cleanup"] or site_in_derive(s["exp"]):
+                continue
+            fl = [q[1] for q in s["lhs"]["p"] if q[0] == "f" and q[2] == SPAN]
+            if fl:
+                edits += 1
+                res.add([finding("F-SPANCTOR", "%s|Span.%s assigned" % (f["path"], fl[0]), where(f, s["line"]), "`%s` of a Span is overwritten after the conversion from pest: the new offset is not pest's and need not lie on a character boundary of the source (or inside it)" % fl[0])])
+    if not edits:
+        res.add([ok("F-SPANCTOR", "tx3_lang|Span fields are never assigned", "crates/tx3-lang/src", "no assignment to Span.start / Span.end outside Span::new")])
 
 
 def f_sameid(F, res):
@@ -224,7 +240,7 @@ def f_sameid(F, res):
                 else:
                     res.add([finding("F-SAMEID", key, w, "the reported name (%r) and the located node (%r) are different identifiers" % (name_o, node_o))])
     res.count("not_in_scope call sites", n)
-    res.floor("not_in_scope call sites", n, 2)
+    res.floor("not_in_scope call sites", n, 1)
 
 
 def f_copyspan(F, res):
